@@ -251,21 +251,26 @@ structure BC (K B V : Type) where
   hash : B
   prev : B
   cache : List (K × Entry V)
+  committed : Bool            -- set by `StateCache.commit` when this block cache's values were merged
+
+/-- the block whose committed view a block cache falls back to: the previous block before its own commit, the block
+    itself afterwards (`if pcc.committed { return pcc.main.Get(key, pcc.blockHash) }`) -/
+def BC.base (bc : BC K B V) : B := if bc.committed then bc.hash else bc.prev
 
 def BC.set (bc : BC K B V) (k : K) (v : V) : BC K B V := { bc with cache := aset bc.cache k (.val v) }
 
 def BC.setValue (bc : BC K B V) (k : K) (e : Entry V) : BC K B V := { bc with cache := aset bc.cache k e }
 
-/-- `BlockCache.Get`: own pending entry (a removal misses), else the committed state at the previous block -/
+/-- `BlockCache.Get`: own pending entry (a removal misses), else the committed state at `base` -/
 def BC.get (sc : SC K B V) (bc : BC K B V) (k : K) : SC K B V × Option V :=
   match alookup bc.cache k with
   | some e => (sc, e.result)
-  | none => sc.get k bc.prev
+  | none => sc.get k bc.base
 
-/-- `BlockCache.Commit`: the pending map is cleared only when the commit took effect -/
+/-- `BlockCache.Commit`: the pending map is cleared and `committed` set only when the commit took effect -/
 def BC.commit (sc : SC K B V) (bc : BC K B V) : SC K B V × BC K B V :=
   let (sc', eff) := sc.commit bc.hash bc.prev bc.cache
-  (sc', if eff then { bc with cache := [] } else bc)
+  (sc', if eff then { bc with cache := [], committed := true } else bc)
 
 /-- what a transaction cache sits on: a block cache (by handle) or a `QueryBlockCache` at a block hash -/
 inductive Main (H B : Type) where
@@ -311,7 +316,7 @@ def Out.ofOption {V : Type} : Option V → Out V
 def Sys.new (capK maxDepth : Nat) : Sys H K B V := ⟨SC.new capK maxDepth, [], []⟩
 
 def Sys.step (s : Sys H K B V) : Op H K B V → Sys H K B V × Out V
-  | .blk h hash prev => ({ s with bcs := aset s.bcs h ⟨hash, prev, []⟩ }, .ok)
+  | .blk h hash prev => ({ s with bcs := aset s.bcs h ⟨hash, prev, [], false⟩ }, .ok)
   | .bhash h hash =>
     match alookup s.bcs h with
     | some bc => ({ s with bcs := aset s.bcs h { bc with hash := hash } }, .ok)
